@@ -60,26 +60,26 @@ fn sampler(_wid: u32, _site: u16, _step: u64) {
     SAMPLES.fetch_add(1, Relaxed);
     let last = LAST_GLOBAL.swap(g, SeqCst);
     if g < last {
-        mon::violation("C14", "C14|global-epoch-decreased", format!("global epoch went from {} to {}", last, g));
+        mon::observer_violation("C14", "C14|global-epoch-decreased", format!("global epoch went from {} to {}", last, g));
     }
     if g > last + 1 {
-        mon::violation("C14", "C14|global-epoch-skipped", format!("global epoch moved from {} to {} between two consecutive yield points", last, g));
+        mon::observer_violation("C14", "C14|global-epoch-skipped", format!("global epoch moved from {} to {} between two consecutive yield points", last, g));
     }
     let a = ACTIVE.lock().unwrap();
     for r in a.iter() {
         let (pinned, ann) = unsafe { V::local_epoch_of(r.local) };
         if !pinned {
-            mon::violation("C14", "C14|registered-guard-not-pinned", format!("participant of worker {} has a live guard (serial {}) but its pinned bit is clear", r.wid, r.serial));
+            mon::observer_violation("C14", "C14|registered-guard-not-pinned", format!("participant of worker {} has a live guard (serial {}) but its pinned bit is clear", r.wid, r.serial));
         }
         if g < ann || g - ann > 1 {
-            mon::violation(
+            mon::observer_violation(
                 "C14",
                 "C14|pinned-participant-sees-more-than-one-advance",
                 format!("worker {} is pinned at epoch {} (guard serial {}) but the global epoch is {}", r.wid, ann, r.serial, g),
             );
         }
         if ann != r.announced {
-            mon::violation(
+            mon::observer_violation(
                 "C16",
                 "C16|announced-epoch-moved-under-live-guard",
                 format!("worker {}: announced epoch moved from {} to {} while guard serial {} is live", r.wid, r.announced, ann, r.serial),
@@ -228,10 +228,10 @@ impl ET {
         MODEL_EVALS.fetch_add(1, Relaxed);
         mon::eval("guard-model");
         if st.guard_count != n {
-            mon::violation("C16", "C16|guard-count-mismatch", format!("after {}: {} live guards but guard_count={}", what, n, st.guard_count));
+            mon::observer_violation("C16", "C16|guard-count-mismatch", format!("after {}: {} live guards but guard_count={}", what, n, st.guard_count));
         }
         if st.pinned != (n > 0) {
-            mon::violation(
+            mon::observer_violation(
                 "C16",
                 &format!("C16|pinned-state-mismatch|after={}", what.split(' ').next().unwrap_or("")),
                 format!("after {}: {} live guards but pinned={} (announced {})", what, n, st.pinned, st.announced),
@@ -242,7 +242,7 @@ impl ET {
             let a = ACTIVE.lock().unwrap();
             for r in a.iter().filter(|r| r.wid == self.t && r.local == st.local) {
                 if r.announced != st.announced {
-                    mon::violation(
+                    mon::observer_violation(
                         "C16",
                         "C16|announced-epoch-moved-under-live-guard",
                         format!("after {}: guard serial {} registered at epoch {} but the participant now announces {}", what, r.serial, r.announced, st.announced),
@@ -251,7 +251,7 @@ impl ET {
             }
             let g = V::collector_epoch(&self.collector);
             if g < st.announced || g - st.announced > 1 {
-                mon::violation("C14", "C14|pinned-participant-sees-more-than-one-advance", format!("after {}: pinned at {} but global epoch {}", what, st.announced, g));
+                mon::observer_violation("C14", "C14|pinned-participant-sees-more-than-one-advance", format!("after {}: pinned at {} but global epoch {}", what, st.announced, g));
             }
         }
     }
@@ -342,7 +342,7 @@ impl ET {
                     let st = V::handle_state(unsafe { &*h });
                     MODEL_EVALS.fetch_add(1, Relaxed);
                     if st.pinned != !sole || st.guard_count != nlive - 1 {
-                        mon::violation(
+                        mon::observer_violation(
                             "C16",
                             "C16|reactivate_after-closure-state",
                             format!("inside reactivate_after's closure: sole guard = {} but pinned={} guard_count={}", sole, st.pinned, st.guard_count),
@@ -363,7 +363,7 @@ impl ET {
                 } else {
                     let v = g.reactivate_after(body);
                     if v != 41 {
-                        mon::violation("C16", "C16|reactivate_after-result", "reactivate_after did not return the closure's result".into());
+                        mon::observer_violation("C16", "C16|reactivate_after-result", "reactivate_after did not return the closure's result".into());
                     }
                 }
                 self.guards[s].g = Some(g);
@@ -477,6 +477,8 @@ fn weights(profile: &str) -> Vec<u32> {
         "c14" => vec![10, 10, 2, 1, 6, 4, 10, 12, 2, 1, 1, 0],
         "c15" => vec![6, 7, 1, 1, 14, 5, 5, 3, 8, 2, 2, 0],
         "c16" => vec![12, 12, 8, 6, 4, 3, 4, 3, 1, 0, 0, 2],
+        // the real participant registry: handles registering and leaving while others advance
+        "c18e" => vec![10, 9, 1, 0, 3, 2, 8, 12, 1, 10, 10, 0],
         _ => vec![8, 8, 2, 2, 10, 4, 6, 5, 3, 1, 1, 1],
     }
 }
@@ -640,6 +642,8 @@ fn run_one(cfg: &EbrCfg, eseed: u64, idx: u64, st: &mut EbrStats) {
     }
     st.rounds_max = st.rounds_max.max(rounds);
     st.execs += 1;
+    mon::EXECS_DONE.fetch_add(1, SeqCst);
+    mon::NONTRIVIAL_DONE.fetch_add(1, SeqCst);
     st.cut += es.cut as u64;
     st.steps += es.steps;
     st.switches += es.switches;
